@@ -85,7 +85,7 @@ const (
 	clFailB   = "loading a valid triangulated OBJ and saving it again neither crashes nor fails"
 	clFaces   = "loading a valid triangulated OBJ and saving it again loses or invents no face"
 	clFaceGrp = "loading a valid triangulated OBJ and saving it again keeps every face in its group"
-	clLayout  = "loading a valid triangulated OBJ loses or invents no face whether or not its last line ends in a newline, with LF or CRLF line endings"
+	clLayout  = "loading a valid triangulated OBJ loses or invents no face whether or not its last line ends in a newline, with LF or CRLF line endings, with or without blanks around its statements"
 	clFaceMat = "a face keeps the material of the usemtl statement that precedes it inside its group"
 )
 
